@@ -1,6 +1,7 @@
 package main
 
 import (
+	"sort"
 	"fmt"
 	"go/token"
 	"go/types"
@@ -326,11 +327,13 @@ func (x *Exec) jump(st *State, fr *Frame, to *ssa.BasicBlock) bool {
 	}
 	// discovery of the loop's write set
 	var writes map[string]bool
+	rows := map[string]map[int]*Term{} // regions written only at loop-invariant base references
 	all := false
 	{
 		d := st.clone()
 		d.mute = true
-		d.disc = &discoverCtx{depth: len(d.stack), header: to.Index, blocks: li.blocks, writes: map[string]bool{}, freshBase: *d.nfresh}
+		d.disc = &discoverCtx{depth: len(d.stack), header: to.Index, blocks: li.blocks, writes: map[string]bool{}, freshBase: *d.nfresh,
+			bases: map[string]map[int]*Term{}, whole: map[string]bool{}, startID: termCount + 1}
 		dfr := d.top()
 		d.havocAll()
 		d.disc.all = false
@@ -343,9 +346,35 @@ func (x *Exec) jump(st *State, fr *Frame, to *ssa.BasicBlock) bool {
 		x.paths = savedPaths
 		writes = d.disc.writes
 		all = d.disc.all
+		memo := map[int]bool{}
+		for k := range writes {
+			if d.disc.whole[k] {
+				continue
+			}
+			ok := true
+			for _, b := range d.disc.bases[k] {
+				if !olderThan(b, d.disc.startID, memo) {
+					ok = false
+					break
+				}
+			}
+			if ok && len(d.disc.bases[k]) > 0 && len(d.disc.bases[k]) <= 8 {
+				rows[k] = d.disc.bases[k]
+			}
+		}
 		if st.disc != nil {
 			for k := range writes {
 				st.disc.writes[k] = true
+				if r, ok := rows[k]; ok {
+					if st.disc.bases[k] == nil {
+						st.disc.bases[k] = map[int]*Term{}
+					}
+					for id, b := range r {
+						st.disc.bases[k][id] = b
+					}
+				} else {
+					st.disc.whole[k] = true
+				}
 			}
 			if all {
 				st.disc.all = true
@@ -366,6 +395,20 @@ func (x *Exec) jump(st *State, fr *Frame, to *ssa.BasicBlock) bool {
 			if s == nil {
 				st.havocAll()
 				break
+			}
+			if r, ok := rows[k]; ok && s.idx != nil {
+				// only the rows of the objects the loop writes are unknown afterwards
+				cur := st.region(k, s)
+				ids := make([]int, 0, len(r))
+				for id := range r {
+					ids = append(ids, id)
+				}
+				sort.Ints(ids)
+				for _, id := range ids {
+					cur = Store(cur, r[id], mkVar(freshName("L_"+regionName(k)), s.elem))
+				}
+				st.setRegion(k, cur)
+				continue
 			}
 			st.setRegion(k, mkVar(freshName("L_"+regionName(k)), s))
 		}
